@@ -210,6 +210,12 @@ def plan_one(sc, kind, val, data, known_gunzips, decs, rng, res):
         sc["_ref_same"] = None if ref is None else (ref == data)
         if ref is not None and ref != data:
             p.items.append(("refdiff", "spec-enc %s" % kind, [data.hex()[:300], ref.hex()[:300]]))
+        if ref is not None:
+            # the other direction: the Lean grammar decodes refcodec's bytes to the value, refcodec parses the Lean bytes
+            p.items.append(("cross", "spec-dec %s %s" % (kind, vr(ref)), ["ok " + val]))
+            if R.ref_parses(kind, data) is False:
+                p.items.append(("refdiff", "refcodec rejects the Lean grammar's encoding of %s" % kind, [data.hex()[:300], "CodecError"]))
+            res.count("cross:both-directions")
     res.count("decoded:%s:%s" % (kind, line.split(" ")[0] if not line.startswith("gen") else "gen-" + line.rsplit(" ", 1)[1]))
     return p
 
@@ -249,6 +255,9 @@ def run_scenarios(ctx, res, scs, rng, mutants=0.5, chunk=300):
             if kind == "state":
                 if g != ["ok"]:
                     res.disagreements.append({"component": "wire", "request": line[:200], "impl": "state request", "model": g})
+            elif kind == "cross":
+                if g != x:
+                    res.disagreements.append({"component": "spec-vs-refcodec", "scenario": clean(p.sc), "request": line[:3000], "impl": trunc(x), "model": trunc(g)})
             elif kind == "corr":
                 res.traces_validated += 1
                 if g != x:
